@@ -38,7 +38,13 @@ var bceRe = regexp.MustCompile(`^(.+\.go):(\d+):(\d+): Found (IsInBounds|IsSlice
 
 // BCEReport runs the compiler over the working tree and returns the unproven bounds checks in
 // receptor packages, mapped to AST expressions and SSA functions.
+// OverlayJSON, when set, is passed to go build (mutation catalogue runs).
+var OverlayJSON string
+
 func (p *Program) BCEReport(overlayJSON string) ([]Unproven, error) {
+	if overlayJSON == "" {
+		overlayJSON = OverlayJSON
+	}
 	args := []string{"build", "-gcflags=" + ModPath + "/...=-l -d=ssa/check_bce/debug=1"}
 	if overlayJSON != "" {
 		args = append(args, "-overlay", overlayJSON)
